@@ -51,7 +51,7 @@ FAMILIES = [
     [[[None, "meter", 2]], [[None, "foot", 2]], [["centi", "meter", 2]], [[None, "inch", 2]]],
     [[[None, "joule", 1]], [["kilo", "joule", 1]], [[None, "newton", 1], [None, "meter", 1]], [["kilo", "gram", 1], [None, "meter", 2], [None, "second", -2]]],
     [[[None, "bit", 1]], [[None, "byte", 1]], [["kilo", "bit", 1]], [["kibi", "bit", 1]]],
-    [[[None, "liter", 1]], [["milli", "liter", 1]], [[None, "gallon", 1]], [[None, "pint", 1]]],
+    [[[None, "liter", 1]], [["milli", "liter", 1]], [[None, "gallon", 1]], [[None, "pint", 1]], [[None, "hogshead", 1]], [[None, "barrel", 1]], [[None, "quart", 1]], [[None, "cup", 1]]],
     # units several declarations apart, and their pure powers (the path finder's exponent reduction over multi-hop paths)
     [[[None, "hand", 1]], [[None, "fathom", 1]], [[None, "cable", 1]], [[None, "foot", 1]], [[None, "yard", 1]], [[None, "meter", 1]], [[None, "mile", 1]]],
     [[[None, "hand", 2]], [[None, "yard", 2]], [[None, "meter", 2]], [[None, "mile", 2]], [[None, "fathom", 2]]],
